@@ -309,6 +309,13 @@ def coq_check_property(pid, timeout=1800):
     return res
 
 
+def fhexs(x):
+    """as fhex, with an explicit %float scope (usable without opening float_scope)"""
+    if x != x or x in (math.inf, -math.inf):
+        return fhex(x)
+    return "(%s)%%float" % float(x).hex()
+
+
 def fhex(x):
     """Python float -> Coq primitive-float literal (exact, hexadecimal)."""
     if x != x:
